@@ -1,26 +1,59 @@
 #!/usr/bin/env python3
-"""prints a markdown table of the seeded changes and which checks caught them (from seeded/*/results.json)"""
-import json, glob, os
+"""seed_table.py [--write]: markdown table of the seeded changes and which checks caught them, from
+seeded/*/results.json; with --write the table in DESIGN.md (between the header row and the line that
+starts with 'No check raised an alarm') is replaced."""
+import json, glob, os, re, sys
 ROOT = os.path.dirname(os.path.dirname(os.path.abspath(__file__)))
+
+
+def key(sid):
+    m = re.match(r'C(\d+)([a-z]?)', sid)
+    return (int(m.group(1)), m.group(2))
+
+
 rows = []
-for d in sorted(glob.glob(os.path.join(ROOT, 'seeded', '*'))):
+n = caught_input = caught_only = missed = 0
+for d in sorted(glob.glob(os.path.join(ROOT, 'seeded', '*')), key=lambda p: key(os.path.basename(p))):
     sid = os.path.basename(d)
     try:
         meta = json.load(open(os.path.join(d, 'meta.json')))
     except Exception:
         continue
     res = json.load(open(os.path.join(d, 'results.json'))) if os.path.exists(os.path.join(d, 'results.json')) else {}
-    caught = []
-    for p, tiers in sorted(res.items()):
-        for tier, r in sorted(tiers.items()):
-            if r['violation']:
-                kind = (r.get('replay') or {}).get('kind', '?')
-                nf = 'no-failing-input-found' in r['violation'][0]
-                caught.append(f"{p} {tier}: {'proof/correspondence only' if nf else 'failing input (' + kind + ')'}")
-            else:
-                caught.append(f"{p} {tier}: missed")
-    files = ', '.join(meta.get('files_changed', []))[:60]
+    cells = []
+    own = meta.get('property', sid[:3])
+    for p, tiers in sorted(res.items(), key=lambda kv: (kv[0] != own, kv[0])):
+        r = tiers.get('quick')
+        if not r:
+            continue
+        if r['violation']:
+            nf = 'no-failing-input-found' in r['violation'][0]
+            cells.append(f"{p}: {'proof/correspondence only' if nf else 'failing input'}")
+        else:
+            cells.append(f'{p}: missed')
+    n += 1
+    ownr = (res.get(own) or {}).get('quick')
+    if ownr and ownr['violation'] and 'no-failing-input-found' not in ownr['violation'][0]:
+        caught_input += 1
+    elif any('failing input' in c for c in cells):
+        caught_input += 1
+    elif any('only' in c for c in cells):
+        caught_only += 1
+    else:
+        missed += 1
+    files = ', '.join(os.path.basename(f) for f in meta.get('files_changed', []))[:40]
     summ = meta.get('summary', '').replace('|', '/').replace('\n', ' ')
-    rows.append(f"| {sid} | {files} | {summ[:170]} | {'; '.join(caught)} |")
-print('| seed | files | change | checks |\n|---|---|---|---|')
-print('\n'.join(rows))
+    rows.append(f"| {sid} | {files} | {summ[:150]} | {'; '.join(cells)} |")
+table = '| seed | file | change (abridged) | quick check, final state |\n|---|---|---|---|\n' + '\n'.join(rows) + '\n'
+summary = f'{n} seeded changes: {caught_input} reported with a failing input, {caught_only} only as a broken proof/correspondence, {missed} missed.'
+if '--write' in sys.argv:
+    p = os.path.join(ROOT, 'DESIGN.md')
+    s = open(p).read()
+    i = s.index('| seed | file | change (abridged) | quick check, final state |')
+    j = s.index('No check raised an alarm', i)
+    s = s[:i] + table + '\n' + summary + '\n\n' + s[j:]
+    open(p, 'w').write(s)
+    print(summary)
+else:
+    print(table)
+    print(summary)
